@@ -424,6 +424,7 @@ func (v *Verifier) VerifyFunc(c *Contract) (res *FuncResult) {
 		st.setComp(compHeld, ConstArr(heldSort, False))
 	}
 	fr.entry = st.clone()
+	ex.topFrame = fr
 	for _, r := range c.Requires {
 		t := ex.evalClause(fr, st, True, r, nil)
 		ex.assume(True, t)
@@ -522,54 +523,67 @@ func (ex *Exec) frameObligations(fr *Frame, r retInfo, targets []modTarget, c *C
 			ex.recordTrivial(fr, "frame", n, fr.fn.Pos(), c.Props)
 			continue
 		}
-		i := Bound("i", srt.Idx)
-		var goal *Term
-		if strings.HasPrefix(n, "E|") {
-			// rows that are not targeted are unchanged as a whole; targeted rows are unchanged
-			// outside every targeted window (stated relative to the slice offset so that the
-			// goal's reads have the same shape as the code's reads)
-			var wins []VSlice
-			for _, t := range targets {
-				if t.kind != "elems" {
-					continue
-				}
-				et := under(t.typ).(*types.Slice).Elem()
-				if strings.HasPrefix(n, "E|"+typeKey(et)+"|") {
-					wins = append(wins, t.val.(VSlice))
-				}
-			}
-			var notT []*Term
-			for _, w := range wins {
-				notT = append(notT, Not(Eq(i, w.Arr)))
-			}
-			goals := []*Term{Forall([]*Term{i}, Implies(And(append([]*Term{ULt(i, next0)}, notT...)...), Eq(Select(now, i), Select(was, i))))}
-			for _, w := range wins {
-				k := Bound("k", BV64)
-				abs := Add(w.Off, k)
-				var inAny []*Term
-				for _, u := range wins {
-					inAny = append(inAny, And(Eq(w.Arr, u.Arr), SLe(u.Off, abs), SLt(abs, Add(u.Off, u.Len))))
-				}
-				goals = append(goals, Forall([]*Term{k}, Implies(Not(Or(inAny...)),
-					Eq(Select(Select(now, w.Arr), abs), Select(Select(was, w.Arr), abs)))))
-			}
-			goal = And(goals...)
-		} else if strings.HasPrefix(n, "M|") {
-			j := Bound("j", srt.Elem.Idx)
-			keep := And(ULt(i, next0), Not(ex.inMod(targets, n, i, j)))
-			goal = Forall([]*Term{i, j}, Implies(keep, Eq(Select(Select(now, i), j), Select(Select(was, i), j))))
-		} else {
-			keep := And(ULt(i, next0), Not(ex.inMod(targets, n, i, nil)))
-			goal = Forall([]*Term{i}, Implies(keep, Eq(Select(now, i), Select(was, i))))
-		}
+		goal := ex.frameGoal(targets, n, now, was, next0)
 		ex.oblige(fr, "frame", n, fr.fn.Pos(), r.pc, goal, c.Props)
 	}
+}
+
+
+// frameGoal: component n (now) equals its entry value (was) at every object that existed at entry
+// (id < next0) and is not a modifies target
+func (ex *Exec) frameGoal(targets []modTarget, n string, now, was, next0 *Term) *Term {
+	srt := compSorts[n]
+	i := Bound("i", srt.Idx)
+	var goal *Term
+	if strings.HasPrefix(n, "E|") {
+		// rows that are not targeted are unchanged as a whole; targeted rows are unchanged
+		// outside every targeted window (stated relative to the slice offset so that the
+		// goal's reads have the same shape as the code's reads)
+		var wins []VSlice
+		for _, t := range targets {
+			if t.kind != "elems" {
+				continue
+			}
+			et := under(t.typ).(*types.Slice).Elem()
+			if strings.HasPrefix(n, "E|"+typeKey(et)+"|") {
+				wins = append(wins, t.val.(VSlice))
+			}
+		}
+		var notT []*Term
+		for _, w := range wins {
+			notT = append(notT, Not(Eq(i, w.Arr)))
+		}
+		goals := []*Term{Forall([]*Term{i}, Implies(And(append([]*Term{ULt(i, next0)}, notT...)...), Eq(Select(now, i), Select(was, i))))}
+		for _, w := range wins {
+			k := Bound("k", BV64)
+			abs := Add(w.Off, k)
+			var inAny []*Term
+			for _, u := range wins {
+				inAny = append(inAny, And(Eq(w.Arr, u.Arr), SLe(u.Off, abs), SLt(abs, Add(u.Off, u.Len))))
+			}
+			goals = append(goals, Forall([]*Term{k}, Implies(Not(Or(inAny...)),
+				Eq(Select(Select(now, w.Arr), abs), Select(Select(was, w.Arr), abs)))))
+		}
+		goal = And(goals...)
+	} else if strings.HasPrefix(n, "M|") {
+		j := Bound("j", srt.Elem.Idx)
+		keep := And(ULt(i, next0), Not(ex.inMod(targets, n, i, j)))
+		goal = Forall([]*Term{i, j}, Implies(keep, Eq(Select(Select(now, i), j), Select(Select(was, i), j))))
+	} else {
+		keep := And(ULt(i, next0), Not(ex.inMod(targets, n, i, nil)))
+		goal = Forall([]*Term{i}, Implies(keep, Eq(Select(now, i), Select(was, i))))
+	}
+	return goal
 }
 
 // a frame is checked for functions that declare modifies, or that some function under
 // contract calls through their contract (callers assume that only the modifies targets change)
 func (v *Verifier) needsFrame(c *Contract) bool {
 	if c.Inline {
+		return false
+	}
+	if c.AssumedFrame {
+		v.assumedAt[c.Func+": frame (modifies clauses) assumed, not checked against the body"] = true
 		return false
 	}
 	if len(c.Modifies) > 0 {
